@@ -7,6 +7,8 @@
 #include "SPxBasis_SPxStatus.inc"
 #include "LPRow_Type.inc"
 #include "MPS_Section.inc"
+#include "Solver_VarStatus.inc"
+#include "RangeType.inc"
 #ifndef CAP
 #define CAP 8
 #endif
@@ -37,6 +39,8 @@ int g_defr, g_dualc, g_type_r;
 int g_load_calls, g_setstatus_calls, g_setstatus_arg, g_loaddesc_calls, g_loaded_c, g_loaded_r, g_loaded_nr, g_loaded_nc, g_status_at_loaddesc;
 bf_bool* gp_mps_has_error; int* gp_mps_section; void* gp_mps;
 void* gp_spare[2]; int* gp_scr_rows; int* gp_scr_cols;
+int g_width, g_pend_letter, g_name_split, g_open_arg_ok, g_delegated, g_BASIC, g_ONUP, g_BOXED;
+const char* gp_filename; int* gp_rt;
 int v_sr, v_sc;   /* ghost statuses of the round-trip lemma */
 void verif_throw(void) {}
 
@@ -44,6 +48,7 @@ static void havoc_ghosts(void)
 {
    g_c1 = nondet_int(); g_c2 = nondet_int(); g_r = nondet_int(); g_cpx = nondet_int(); v_sr = nondet_int(); v_sc = nondet_int();
    g_defc = nondet_int();
+   g_BASIC = BASIC; g_ONUP = ON_UPPER; g_BOXED = RANGETYPE_BOXED;
    g_PU = P_ON_UPPER; g_PL = P_ON_LOWER; g_PF = P_FIXED; g_PFREE = P_FREE; g_GE = GREATER_EQUAL; g_EQ = EQUAL; g_LE = LESS_EQUAL; g_SEC_NAME = NAME;
 }
 #define RET __CPROVER_return_value
@@ -65,6 +70,7 @@ static void havoc_ghosts(void)
                              ((s) == P_FREE && (lo) <= -INF && (hi) >= INF))
 #define NORM(s, lo, hi) ((lo) == (hi) ? P_FIXED : ((lo) > -INF && ((hi) >= INF || (s) == P_ON_LOWER)) ? P_ON_LOWER : (hi) < INF ? P_ON_UPPER : P_FREE)
 
+#define CLAMP(i, n) ((i) < 0 ? 0 : (i) >= (n) ? 0 : (i))
 #define WRITER_GHOSTS gp_rs, gp_cs, gp_cb, gp_nrw, gp_lhs, gp_rhs, gp_low, gp_up, gp_colpool, gp_rowpool, gp_buf, g_buf_letter, g_buf_idx, g_nr, g_nc, g_inf, g_cpx, \
    g_cur_kind, g_cur_col, g_cur_row, g_header, g_endata, g_malformed, g_nrec, g_c1_seen, g_c1_kind, g_c1_row, g_c2_seen, g_c2_kind, g_c2_row, \
    g_r_seen, g_r_kind, g_r_col, g_destroyed, g_done, __CPROVER_object_whole(g_ns_num), __CPROVER_object_whole(g_ns_iscol)
@@ -73,10 +79,13 @@ static void havoc_ghosts(void)
 #ifdef INST_WRITE
 #define ROWTYPE(i) TYPE_SPEC(lhs[i], rhs[i])
 /* what must have been emitted for a column c whose record landed in (seen, kind, row) */
+#define CB(c) (colstat[c] > 0)                  /* basic column */
+#define RNB(r) (rowstat[r] < 0)                 /* nonbasic row */
+#define CUP(c) (colstat[c] == P_ON_UPPER)       /* column nonbasic at its upper bound */
+#define RKIND(r) WKIND_ROW(rowstat[r], ROWTYPE(r), cpx)
 #define COL_RECORD_OK(c, seen, kind, row) ( \
-   colstat[c] > 0 ? ((seen) == 1 && 0 <= (row) && (row) < nr && rowstat[(row) < 0 ? 0 : (row) >= nr ? 0 : (row)] < 0 && \
-                     (kind) == WKIND_ROW(rowstat[(row) < 0 ? 0 : (row) >= nr ? 0 : (row)], ROWTYPE((row) < 0 ? 0 : (row) >= nr ? 0 : (row)), cpx)) : \
-   colstat[c] == P_ON_UPPER ? ((seen) == 1 && (kind) == K_UL && (row) == -1) : (seen) == 0)
+   CB(c) ? ((seen) == 1 && 0 <= (row) && (row) < nr && RNB(CLAMP(row, nr)) && (kind) == RKIND(CLAMP(row, nr))) : \
+   CUP(c) ? ((seen) == 1 && (kind) == K_UL && (row) == -1) : (seen) == 0)
 void w_writeBasis(int* rowstat, int* colstat, double* lhs, double* rhs, int nr, double* lower, double* upper, int nc,
                   int bstatus, int cpx, int userownames, int usecolnames, const char* rowpool, const char* colpool, int* cb, int* nrw)
 __CPROVER_requires(0 <= nr && nr <= CAP && 0 <= nc && nc <= CAP)
@@ -91,7 +100,7 @@ __CPROVER_requires(NO_PROBLEM <= bstatus && bstatus <= INFEASIBLE)
  * cb / nrw are the ghost prefix counts of basic columns / nonbasic rows; their defining recurrence is instantiated by
  * the descriptor accessor at every index the code reads, and here at the ghost row */
 __CPROVER_requires(cb[0] == 0 && nrw[0] == 0 && cb[nc] == nrw[nr])
-__CPROVER_requires(GR ==> (0 <= nrw[g_r] && nrw[g_r] <= g_r && nrw[g_r + 1] == nrw[g_r] + (rowstat[g_r] < 0 ? 1 : 0) && nrw[g_r + 1] <= nrw[nr]))
+__CPROVER_requires(GR ==> (0 <= nrw[g_r] && nrw[g_r] <= g_r && nrw[g_r + 1] == nrw[g_r] + (RNB(g_r) ? 1 : 0) && nrw[g_r + 1] <= nrw[nr]))
 __CPROVER_assigns(WRITER_GHOSTS)
 /* well-formed file: header, records <indicator> <column> [<row>], ENDATA */
 __CPROVER_ensures(g_malformed == 0 && g_header == 1 && g_endata == 1 && g_cur_kind == K_NONE)
@@ -101,10 +110,10 @@ __CPROVER_ensures(bstatus == NO_PROBLEM ==> g_nrec == 0)
 __CPROVER_ensures((bstatus != NO_PROBLEM && G1) ==> COL_RECORD_OK(g_c1, g_c1_seen, g_c1_kind, g_c1_row))
 __CPROVER_ensures((bstatus != NO_PROBLEM && G2) ==> COL_RECORD_OK(g_c2, g_c2_seen, g_c2_kind, g_c2_row))
 /* distinct basic columns get distinct rows (the pairing is increasing) */
-__CPROVER_ensures((bstatus != NO_PROBLEM && G1 && G2 && g_c1 < g_c2 && colstat[g_c1] > 0 && colstat[g_c2] > 0) ==> g_c1_row < g_c2_row)
+__CPROVER_ensures((bstatus != NO_PROBLEM && G1 && G2 && g_c1 < g_c2 && CB(g_c1) && CB(g_c2)) ==> g_c1_row < g_c2_row)
 /* every nonbasic row is named by exactly one record (of a basic column, with the indicator for its status); no basic row is named */
-__CPROVER_ensures((bstatus != NO_PROBLEM && GR) ==> (rowstat[g_r] < 0 ?
-   (g_r_seen == 1 && 0 <= g_r_col && g_r_col < nc && colstat[g_r_col < 0 ? 0 : g_r_col >= nc ? 0 : g_r_col] > 0 && g_r_kind == WKIND_ROW(rowstat[g_r], ROWTYPE(g_r), cpx)) : g_r_seen == 0))
+__CPROVER_ensures((bstatus != NO_PROBLEM && GR) ==> (RNB(g_r) ?
+   (g_r_seen == 1 && 0 <= g_r_col && g_r_col < nc && CB(CLAMP(g_r_col, nc)) && g_r_kind == RKIND(g_r)) : g_r_seen == 0))
 ;
 void h_writeBasis(void)
 {
@@ -112,6 +121,61 @@ void h_writeBasis(void)
    int bstatus, cpx, userownames, usecolnames; const char* rowpool; const char* colpool; int* cb; int* nrw;
    havoc_ghosts();
    w_writeBasis(rowstat, colstat, lhs, rhs, nr, lower, upper, nc, bstatus, cpx, userownames, usecolnames, rowpool, colpool, cb, nrw);
+   CANARY();
+}
+#endif
+
+/* ------------------------------------------------------------------------------------------------------------- */
+#ifdef INST_WRITEFILE
+#define CB(c) (colstat[c] == BASIC)
+#define RNB(r) (rowstat[r] != BASIC)
+#define CUP(c) (colstat[c] == ON_UPPER)
+#define RKIND(r) ((rowstat[r] == ON_UPPER && (!cpx || rowtypes[r] == RANGETYPE_BOXED)) ? K_XU : K_XL)
+#define COL_RECORD_OK(c, seen, kind, row) ( \
+   CB(c) ? ((seen) == 1 && 0 <= (row) && (row) < nr && RNB(CLAMP(row, nr)) && (kind) == RKIND(CLAMP(row, nr))) : \
+   CUP(c) ? ((seen) == 1 && (kind) == K_UL && (row) == -1) : (seen) == 0)
+#define WRITTEN (RET == 1 && !loaded && hasbasis)
+int w_writeBasisFile(int* rowstat, int* colstat, int* rowtypes, int nr, int nc, int loaded, int hasbasis, int cpx,
+                     int userownames, int usecolnames, const char* rowpool, const char* colpool, const char* fname, int* cb, int* nrw)
+__CPROVER_requires(0 <= nr && nr <= CAP && 0 <= nc && nc <= CAP)
+__CPROVER_requires(__CPROVER_is_fresh(rowstat, N1(nr) * sizeof(int)) && __CPROVER_is_fresh(colstat, N1(nc) * sizeof(int)))
+/* _rowTypes is dimensioned like _basisStatusRows (it is maintained only when a rational LP is kept: see "trusted") */
+__CPROVER_requires(__CPROVER_is_fresh(rowtypes, N1(nr) * sizeof(int)))
+__CPROVER_requires(__CPROVER_is_fresh(rowpool, CAP + 1) && __CPROVER_is_fresh(colpool, CAP + 1) && __CPROVER_is_fresh(fname, 4))
+__CPROVER_requires(__CPROVER_is_fresh(cb, (nc + 1) * sizeof(int)) && __CPROVER_is_fresh(nrw, (nr + 1) * sizeof(int)))
+__CPROVER_requires(0 <= cpx && cpx <= 1 && 0 <= userownames && userownames <= 1 && 0 <= usecolnames && usecolnames <= 1 &&
+                   0 <= loaded && loaded <= 1 && 0 <= hasbasis && hasbasis <= 1)
+/* valid stored basis: as many basic columns as nonbasic rows (#basic == number of rows) */
+__CPROVER_requires(cb[0] == 0 && nrw[0] == 0 && cb[nc] == nrw[nr])
+__CPROVER_requires(GR ==> (0 <= nrw[g_r] && nrw[g_r] <= g_r && nrw[g_r + 1] == nrw[g_r] + (RNB(g_r) ? 1 : 0) && nrw[g_r + 1] <= nrw[nr]))
+__CPROVER_assigns(WRITER_GHOSTS, g_width, g_pend_letter, g_name_split, g_open_arg_ok, g_delegated, gp_filename, gp_rt)
+#ifndef CLAUSE_NAME_FIELDS
+__CPROVER_ensures(RET == 0 || RET == 1)
+/* loaded LP: the solver writes (delegation, nothing written here) */
+__CPROVER_ensures(loaded ==> (g_delegated == 1 && g_header == 0 && g_nrec == 0))
+__CPROVER_ensures(!loaded ==> (g_delegated == 0 && g_open_arg_ok == 1))
+/* the file could not be opened: false, nothing written */
+__CPROVER_ensures((!loaded && RET == 0) ==> (g_header == 0 && g_nrec == 0 && g_endata == 0))
+/* well-formed file: header, records <indicator> <column> [<row>], ENDATA (blanks inside names: separate instance) */
+__CPROVER_ensures((!loaded && RET == 1) ==> (g_malformed == 0 && g_header == 1 && g_endata == 1 && g_cur_kind == K_NONE && g_pend_letter == 0))
+__CPROVER_ensures((!loaded && RET == 1 && !hasbasis) ==> g_nrec == 0)
+/* same pairing as SPxBasisBase::writeBasis, on the VarStatus arrays */
+__CPROVER_ensures((WRITTEN && G1) ==> COL_RECORD_OK(g_c1, g_c1_seen, g_c1_kind, g_c1_row))
+__CPROVER_ensures((WRITTEN && G2) ==> COL_RECORD_OK(g_c2, g_c2_seen, g_c2_kind, g_c2_row))
+__CPROVER_ensures((WRITTEN && G1 && G2 && g_c1 < g_c2 && CB(g_c1) && CB(g_c2)) ==> g_c1_row < g_c2_row)
+__CPROVER_ensures((WRITTEN && GR) ==> (RNB(g_r) ?
+   (g_r_seen == 1 && 0 <= g_r_col && g_r_col < nc && CB(CLAMP(g_r_col, nc)) && g_r_kind == RKIND(g_r)) : g_r_seen == 0))
+#else
+/* the clause split off: every name is written as ONE blank-free field (no padding between "x"/"C" and the number) */
+__CPROVER_ensures(g_name_split == 0)
+#endif
+;
+void h_writeBasisFile(void)
+{
+   int* rowstat; int* colstat; int* rowtypes; int nr, nc, loaded, hasbasis, cpx, userownames, usecolnames;
+   const char* rowpool; const char* colpool; const char* fname; int* cb; int* nrw;
+   havoc_ghosts();
+   w_writeBasisFile(rowstat, colstat, rowtypes, nr, nc, loaded, hasbasis, cpx, userownames, usecolnames, rowpool, colpool, fname, cb, nrw);
    CANARY();
 }
 #endif
